@@ -58,6 +58,8 @@ def run(ck, tier):
 
     pairs.check(ck, F, "C02.buffer-offset-pair", ["arrow_arith", "arrow_buffer", "arrow_select", "arrow_data", "arrow_array", "arrow_ord", "arrow_string", "arrow_cast"], 15)
 
+    pairs.check_cross(ck, F, "C02.bitcopy-offset-slots", ["arrow_buffer", "arrow_data", "arrow_array", "arrow_select", "arrow_arith", "arrow_cast"], 3)
+
     ck.rule("C02.logical-nulls-overridden", "array types whose nulls do not live in their own validity buffer override logical_nulls and is_nullable (logical_null_count defaults to counting logical_nulls)", floor=len(LOGICAL))
     c = F.crate("arrow_array")
     for ty, need in LOGICAL:
